@@ -12,11 +12,11 @@ CHECK = dict(
                 "multiples of 90 degrees the vertex set is bit-for-bit the signed permutation of the original. Quality: segment counts read off "
                 "the meshes of Cylinder/Sphere/Revolve/CrossSection::Circle equal GetCircularSegments(radius) and the documented rule."),
     level_note=("Trusted: compiler, lib/solid.h winding number, the ~150 lines of analytic predicates in harness/C17.cpp. Bound: the argument lists in "
-                "harness/C17.cpp (DESIGN.md C17) and a 9^3..15^3 sample lattice per case; points inside the faceting band or within 1e-6 of an "
+                "harness/C17.cpp (DESIGN.md C17) and an 11^3 (quick) / 19^3 (thorough) sample lattice per case (8^3 / 12^3 for transforms); points inside the faceting band or within 1e-6 of an "
                 "analytic surface are not judged. Where the documentation is ambiguous (truncation before rounding segment counts up to a multiple "
                 "of four) both readings are accepted."),
     runs=[S("seq-fast", quick=150, thorough=1500, workers=8, case_timeout=120),
-          S("seq-asan", quick=300, thorough=1500, workers=8, case_timeout=300, tiers=("quick",))],
+          S("seq-asan", quick=300, thorough=1500, workers=8, case_timeout=300, tiers=("quick",), args=["--lattice", "6"])],
     rule=("phases cube(+tetrahedron), sphere, cylinder, extrude, revolve, levelset, transform1 (every single transform of the alphabet x 5 base solids), "
           "mirror-zero, transform2 (all ordered pairs of 20 transforms x forced/lazy intermediate x 5 base solids), quality (5 segment settings x 2 angles x "
           "2 lengths x 3 radii x 4 constructors). Every phase enumerates its whole cross product. distinct = distinct canonical result meshes; "
@@ -24,11 +24,12 @@ CHECK = dict(
           "solid had judged samples on both sides (transforms), or a segment count was read off a non-empty result (quality)."),
     bounds=dict(
         quick=("Cube 9 sizes x centre; Sphere 5 radii x 7 segment counts; Cylinder 4 heights x 5 rLow x 5 rHigh x 5 segs x centre; Extrude 6 polygons x 4 heights x "
-               "3 nDivisions x 5 twists x 4 scaleTop; Revolve 11 polygons x 5 angles x 5 segs; LevelSet 4 sdf x 2 edge x 3 level x 2 tolerance; Rotate over "
+               "3 nDivisions x 5 twists x 4 scaleTop; Revolve 11 polygons x 6 angles x 5 segs; LevelSet 4 sdf x 2 edge x 3 level x 2 tolerance; Rotate over "
                "{0,30,90,180,270,360,-90}^3, 10 mirrors, 8 scales, 4 translations, 8 matrices, 4 warps on 5 bases; 20x20x2x5 chains; 240 Quality cases; "
-               "default Quality for the constructor phases; 9^3-11^3 samples per case"),
-        thorough=("the same cross products, with Sphere/Cylinder/Revolve additionally run under Quality (0,30,0.1) and (7,10,1), and 13^3-15^3 samples per case "
-                  "(10^3 for transforms)")),
+               "default Quality for the constructor phases; 11^3-13^3 samples per case (8^3 for transforms); the ASan run uses 6^3"
+               " samples"),
+        thorough=("the same cross products, with Sphere/Cylinder/Revolve additionally run under Quality (segments,angle,length) = (0,30,0.1), (7,10,1), (0,10,0.1), (16,10,1), and 19^3-21^3 samples per case "
+                  "(12^3 for transforms)")),
     assumptions=COMMON_ASSUME + [
         "samples inside the faceting band (inscribed..circumscribed analytic shape), within one grid-cell diagonal of a LevelSet surface, or within 1e-6 of an analytic surface are not judged",
         "Rotate uses right-handed rotations and a partial Revolve starts at the +X half plane turning counter-clockwise (the documentation fixes the axis order but not the handedness)",
